@@ -289,12 +289,12 @@ func genC07(g *mon.G) {
 
 func init() {
 	Register(&mon.Check{
-		ID:    "C07",
-		Level: "exploration",
-		Rule: "cases = seeded archives (synthetic + honest CIDs; duplicates, same multihash under other codecs, same key with different bytes, identity twins) in 5 container forms x {UseWholeCIDs, StoreIdentityCIDs} x {embedded/generated index, supplied index built by the library or by the reference in either codec}; every present CID and 4-5 absent neighbours each are queried through blockstore.NewReadOnly, OpenReadOnly and storage.OpenReadable and compared with a reference scan; AllKeysChan must equal the scan's CID sequence in order",
+		ID:          "C07",
+		Level:       "exploration",
+		Rule:        "cases = seeded archives (synthetic + honest CIDs; duplicates, same multihash under other codecs, same key with different bytes, identity twins) in 5 container forms x {UseWholeCIDs, StoreIdentityCIDs} x {embedded/generated index, supplied index built by the library or by the reference in either codec}; every present CID and 4-5 absent neighbours each are queried through blockstore.NewReadOnly, OpenReadOnly and storage.OpenReadable and compared with a reference scan; AllKeysChan must equal the scan's CID sequence in order",
 		Assumptions: []string{"reference scan (refcar) is the model", "GetSize of an absent identity CID with StoreIdentityCIDs on: a size or a not-found answer are both accepted (the block is implied by its CID)"},
-		Gen:   genC07,
-		Run:   runC07,
+		Gen:         genC07,
+		Run:         runC07,
 		MinCover: map[string]int{"container:v1": 20, "container:v1-nullpad": 20, "container:v2-mh": 20, "container:v2-sorted-pad": 20, "container:v2-indexless": 20,
 			"supplied:lib-sorted": 5, "supplied:ref-mh": 5, "api:blockstore.OpenReadOnly": 50, "api:storage.OpenReadable": 50},
 	})
